@@ -40,7 +40,9 @@ def shuffle(j, rng):
         rng.shuffle(k)
         return [t, k]
     if t == "call":
-        return ["call", j[1], [shuffle(c, rng) for c in j[2]], [[k, shuffle(c, rng)] for k, c in j[3]]]
+        kw = [[k, shuffle(c, rng)] for k, c in j[3]]
+        rng.shuffle(kw)                     # keyword arguments are identified by name, not by position
+        return ["call", j[1], [shuffle(c, rng) for c in j[2]], kw]
     return j
 
 
